@@ -92,7 +92,12 @@ Record payload := { pl_pub : nat; pl_seq : N }.
 Definition pl0 : payload := {| pl_pub := 0; pl_seq := 0 |}.
 
 (* backpressure handler of a publisher: none, or a script (see Conn.hscript) *)
-Inductive hmode := HNone | HScript (h : hscript).
+(* a handler may also ACT before it answers: it runs inside blocking_send, i.e. between the
+   publisher's retrieve_returned_chunks and its push.  Actions are operations of the subscriber
+   whose buffer is full: drop its oldest held Sample / receive (the Sample is kept). *)
+Inductive hact := HDrop | HRecv.
+Record hgroup := { g_acts : list hact; g_ans : bp_action }.
+Inductive hmode := HNone | HScript (h : hscript) | HActs (gs : list hgroup) (last : hgroup).
 
 Record hent := { he_off : off; he_idx : nat (* ghost: send index *) }.
 
@@ -399,40 +404,97 @@ Definition pub_add_history (w : world) (p : nat) (o : off) (gi : nat) : world :=
 
 Definition hscript_follow : hscript := {| h_script := []; h_last := BFollow |}.
 
-(* Sender::deliver_offset_to_connection_impl.  Result: (recipients, unable_to_deliver, blocks) *)
-Definition pub_deliver_one (w : world) (p i : nat) (o : off) (gi : nat) : res (world * (nat * bool * bool)) :=
+(* what a handler's actions did (part of the observation of the send call) *)
+Inductive hev :=
+| HvDrop (id : nat) | HvDropNone
+| HvRecv (s id origin : nat) (pl : payload) | HvRecvNone (s : nat) | HvRecvBorrow (s : nat) | HvNa.
+
+(* the executor of handler actions is a parameter here (the subscriber side is defined below):
+   hx w s acts = the world after subscriber s performed acts, and what was observed *)
+Definition hexec := world -> nat -> list hact -> res (world * list hev).
+
+(* the wait_while closure of blocking_send when the handler acts: every evaluation re-reads
+   is_connected and is_full of the connection as it is NOW.  Result: the world, how the wait
+   ended, whether the receiver was connected at the last evaluation, the handler trace. *)
+Fixpoint wait_world (fuel : nat) (hx : hexec) (w : world) (p s : nat) (gs : list hgroup) (last : hgroup)
+         (strategy_retry : bool) (k : nat) (tr : list hev) : res (world * wait_res * bool * list hev) :=
+  match fuel with
+  | O => Val (w, WForever, true, tr)
+  | S f =>
+    match getc w p s with
+    | None => Val (w, WAbort false, false, tr)
+    | Some c =>
+      if c_is_connected c && c_is_full c then
+        let g := nth k gs last in
+        r <- hx w s (g_acts g) ;;
+        let '(w1, t1) := r in
+        match g_ans g with
+        | BFollow => if strategy_retry then Val (w1, WForever, true, tr ++ t1) else Val (w1, WAbort false, true, tr ++ t1)
+        | BRetry => wait_world f hx w1 p s gs last strategy_retry (S k) (tr ++ t1)
+        | BDiscard => Val (w1, WAbort false, true, tr ++ t1)
+        | BDiscardFail => Val (w1, WAbort true, true, tr ++ t1)
+        end
+      else Val (w, WAbort false, c_is_connected c, tr)
+    end
+  end.
+
+(* Sender::blocking_send with an acting handler, on the world *)
+Definition pub_blocking_world (hx : hexec) (w : world) (p s : nat) (o : off) (gi : nat) (gs : list hgroup) (last : hgroup)
+           (strategy_retry : bool) : res (world * send_res * list hev) :=
+  match getc w p s with
+  | None => Val (w, SNoReceiver, [])
+  | Some c =>
+    if negb (c_ovf c) && c_is_full c then
+      r <- wait_world (length gs + c_B c + c_M c + 4) hx w p s gs last strategy_retry 0 [] ;;
+      let '(w1, wr, conn, tr) := r in
+      match wr with
+      | WForever => Val (w1, SBlocks, tr)
+      | WAbort fl =>
+        if negb conn then Val (w1, SNoReceiver, tr)
+        else if fl then Val (w1, SUnableToDeliver, tr)
+        else match getc w1 p s with
+             | None => Val (w1, SNoReceiver, tr)
+             | Some c1 => r2 <- c_try_send c1 o gi ;; Val (setc w1 p s (fst r2), snd r2, tr)
+             end
+      end
+    else r2 <- c_try_send c o gi ;; Val (setc w p s (fst r2), snd r2, [])
+  end.
+
+(* Sender::deliver_offset_to_connection_impl.  Result: (recipients, unable_to_deliver, blocks), handler trace *)
+Definition pub_deliver_one (hx : hexec) (w : world) (p i : nat) (o : off) (gi : nat) : res (world * (nat * bool * bool) * list hev) :=
   let x := getp w p in
   match nth i (p_tab x) None with
-  | None => Val (w, (0, false, false))
+  | None => Val (w, (0, false, false), [])
   | Some s =>
     match getc w p s with
-    | None => Val (w, (0, false, false))
+    | None => Val (w, (0, false, false), [])
     | Some c =>
       r <- match p_handler x with
-           | HScript h => c_blocking_send c o gi h (p_retry x)
-           | HNone => if p_retry x then c_blocking_send c o gi hscript_follow true else c_try_send c o gi
+           | HActs gs last => pub_blocking_world hx w p s o gi gs last (p_retry x)
+           | HScript h => r0 <- c_blocking_send c o gi h (p_retry x) ;; Val (setc w p s (fst r0), snd r0, [])
+           | HNone => r0 <- (if p_retry x then c_blocking_send c o gi hscript_follow true else c_try_send c o gi) ;;
+                      Val (setc w p s (fst r0), snd r0, [])
            end ;;
-      let '(c1, sr) := r in
-      let w1 := setc w p s c1 in
+      let '(w1, sr, tr) := r in
       match sr with
-      | SOk ev => Val (setp w1 p (pub_account_send (getp w1 p) o ev), (1, false, false))
-      | SUnableToDeliver => Val (w1, (0, true, false))
-      | SBlocks => Val (w1, (0, false, true))
-      | SBufferFull | SNoReceiver | SCorrupted => Val (w1, (0, false, false))   (* degradation handler: Warn *)
+      | SOk ev => Val (setp w1 p (pub_account_send (getp w1 p) o ev), (1, false, false), tr)
+      | SUnableToDeliver => Val (w1, (0, true, false), tr)
+      | SBlocks => Val (w1, (0, false, true), tr)
+      | SBufferFull | SNoReceiver | SCorrupted => Val (w1, (0, false, false), tr)   (* degradation handler: Warn *)
       end
     end
   end.
 
-Fixpoint pub_deliver_all (w : world) (p : nat) (n i : nat) (o : off) (gi : nat) (acc : nat * bool * bool)
-  : res (world * (nat * bool * bool)) :=
+Fixpoint pub_deliver_all (hx : hexec) (w : world) (p : nat) (n i : nat) (o : off) (gi : nat) (acc : nat * bool * bool) (tra : list hev)
+  : res (world * (nat * bool * bool) * list hev) :=
   match n with
-  | O => Val (w, acc)
+  | O => Val (w, acc, tra)
   | S n' =>
-    r <- pub_deliver_one w p i o gi ;;
-    let '(w1, (k, f, b)) := r in
+    r <- pub_deliver_one hx w p i o gi ;;
+    let '(w1, (k, f, b), tr) := r in
     let '(ak, af, ab) := acc in
-    if b then Val (w1, (ak, af, true))     (* the call never returns *)
-    else pub_deliver_all w1 p n' (S i) o gi (ak + k, af || f, ab)
+    if b then Val (w1, (ak, af, true), tra ++ tr)     (* the call never returns *)
+    else pub_deliver_all hx w1 p n' (S i) o gi (ak + k, af || f, ab) (tra ++ tr)
   end.
 
 Inductive err :=
@@ -451,18 +513,18 @@ Inductive sres := SrOk (n : nat) | SrErr (e : err) | SrBlocks.
 
 (* PublisherSharedState::send_sample: is_active; update_connections; add_sample_to_history;
    deliver_offset (retrieve_returned_chunks; every connection) *)
-Definition pub_send_sample (w : world) (p : nat) (o : off) : res (world * sres) :=
+Definition pub_send_sample (hx : hexec) (w : world) (p : nat) (o : off) : res (world * sres * list hev) :=
   let x := getp w p in
-  if negb (p_active x) then Val (w, SrErr EConnectionBroken) else
+  if negb (p_active x) then Val (w, SrErr EConnectionBroken, []) else
   w1 <- pub_update_connections w p ;;
   let x1 := getp w1 p in
   let gi := length (p_sent x1) in
   let w2 := setp w1 p (p_set_sent x1 (p_sent x1 ++ [nth o (p_mem x1) pl0])) in
   let w3 := pub_add_history w2 p o gi in
   let w4 := pub_retrieve w3 p in
-  r <- pub_deliver_all w4 p (length (p_tab (getp w4 p))) 0 o gi (0, false, false) ;;
-  let '(w5, (k, f, b)) := r in
-  Val (w5, if b then SrBlocks else if f then SrErr EUnableToDeliver else SrOk k).
+  r <- pub_deliver_all hx w4 p (length (p_tab (getp w4 p))) 0 o gi (0, false, false) [] ;;
+  let '(w5, (k, f, b), tr) := r in
+  Val (w5, (if b then SrBlocks else if f then SrErr EUnableToDeliver else SrOk k), tr).
 
 Inductive ares := AOk (o : off) | AErr (e : err).
 
@@ -942,7 +1004,8 @@ Inductive obs :=
 | BBool (b : bool)
 | BExh (n : nat) (e : err)
 | BFiles (conns datas : nat)
-| BBlocks.
+| BBlocks
+| BWith (o : obs) (tr : list hev).   (* a send during which the back-pressure handler acted *)
 
 Definition pub_live (w : world) (p : nat) : bool := Nat.ltb p (length (w_pubs w)) && p_active (getp w p).
 Definition sub_live (w : world) (s : nat) : bool := Nat.ltb s (length (w_subs w)) && s_active (gets w s).
@@ -957,13 +1020,37 @@ Definition do_loan (w : world) (p : nat) : res (world * obs) :=
     Val (w_set_loans w2 (w_loans w2 ++ [{| l_id := id; l_pub := p; l_off := o |}]) (S id), BLoaned id o)
   end.
 
+(* the handler's actions: operations of subscriber s (the one whose buffer is full) *)
+Fixpoint run_hacts (w : world) (s : nat) (acts : list hact) : res (world * list hev) :=
+  match acts with
+  | [] => Val (w, [])
+  | HDrop :: t =>
+    match find (fun x => Nat.eqb (x_sub x) s) (w_samples w) with
+    | None => r <- run_hacts w s t ;; Val (fst r, HvDropNone :: snd r)
+    | Some x => w1 <- sample_drop w x ;; r <- run_hacts w1 s t ;; Val (fst r, HvDrop (x_id x) :: snd r)
+    end
+  | HRecv :: t =>
+    if sub_live w s then
+      rr <- sub_receive w s ;;
+      let '(w1, rx) := rr in
+      r <- run_hacts w1 s t ;;
+      Val (fst r, match rx with
+                  | RxSome x => HvRecv s (x_id x) (x_origin x) (x_expect x)
+                  | RxNone => HvRecvNone s
+                  | RxErr _ => HvRecvBorrow s
+                  end :: snd r)
+    else r <- run_hacts w s t ;; Val (fst r, HvNa :: snd r)
+  end.
+
+Definition with_trace (o : obs) (tr : list hev) : obs := match tr with [] => o | _ => BWith o tr end.
+
 Definition do_send (w : world) (l : loan) : res (world * obs) :=
-  r <- pub_send_sample w (l_pub l) (l_off l) ;;
-  let '(w1, sr) := r in
+  r <- pub_send_sample run_hacts w (l_pub l) (l_off l) ;;
+  let '(w1, sr, tr) := r in
   match sr with
   | SrBlocks => Val (w1, BBlocks)
-  | SrOk n => Val (loan_drop w1 l, BSent n)
-  | SrErr e => Val (loan_drop w1 l, BErr e)
+  | SrOk n => Val (loan_drop w1 l, with_trace (BSent n) tr)
+  | SrErr e => Val (loan_drop w1 l, with_trace (BErr e) tr)
   end.
 
 (* exhaustion probe *)
@@ -1120,7 +1207,10 @@ Definition conn_inv_b (w : world) (p s : nat) (c : conn) : bool :=
   && Nat.eqb (length (c_used c)) (length (c_sub c) + length (borrowed w p s) + length (c_comp c))
   && Nat.leb (length (c_sub c)) (c_B c)
   && (negb (c_rcv c) || (Nat.eqb (c_borrow c) (length (borrowed w p s)) && Nat.leb (c_borrow c) (c_M c)))
-  && Nat.leb (length (c_sub c) + length (borrowed w p s) + length (c_comp c)) (c_B c + c_M c)
+  && Nat.leb (length (borrowed w p s)) (c_M c)
+  (* B + M while the publisher is outside blocking_send; one more when the subscriber acted between the
+     publisher's reclaim and its push (the reason for the + 1 of completion_queue_size()) *)
+  && Nat.leb (length (c_sub c) + length (borrowed w p s) + length (c_comp c)) (c_B c + c_M c + 1)
   && Nat.leb (c_B c) (cf_B (w_cfg w)) && Nat.eqb (c_M c) (cf_M (w_cfg w)).
 
 Definition pub_inv_b (w : world) (p : nat) : bool :=
